@@ -35,9 +35,9 @@ class C11(SessionCheck):
             bad = [c for c in io['calls'] if c['out'][0] != 'reply']
             if bad or not io['connected_before_close']:
                 return ('C11:notification-disturbed-rpc@' + sc['profile'], 'with notifications interleaved a request failed (%s) or the session died' % (bad[0]['out'][1] if bad else 'disconnected'))
-            if not io['take_empty_nonblocking'] or io['take_empty_nonblocking_dt'] > 0.1:
+            if not io['take_empty_nonblocking'] or io['take_empty_nonblocking_dt'] > 0.2:
                 return ('C11:take-nonblocking', 'non-blocking take on an empty queue did not return None immediately')
-            if not io['take_empty_blocking'] or not (0.2 <= io['take_empty_blocking_dt'] <= 1.0):
+            if not io['take_empty_blocking'] or not (0.2 <= io['take_empty_blocking_dt'] <= 2.5):
                 return ('C11:take-timeout', 'blocking take(timeout=0.25) on an empty queue returned after %.2fs' % io['take_empty_blocking_dt'])
             return None
         info = case.get('info') or {}
